@@ -203,6 +203,12 @@ impl Scenario for ReplyScenario {
                 }
             }
             script.push(gen_request(rng, &cfg.points, cfg.rx));
+            if rng.chance(1, 8) {
+                // something answered with an error and not taken for a request, then the previous request again: its reply
+                // carries the number of the request it answers, not that of the error response sent in between
+                script.push(Op::UnknownFunction(*rng.pick(&[0x70u8, 0x22, 0x7F, 0x63])));
+                script.push(Op::Repeat);
+            }
             if cfg.unsolicited && rng.chance(1, 6) {
                 // a READ that has to be rejected arrives while an unsolicited response awaits its confirmation: it is deferred
                 // and answered - with its error bit - once the series ends (by the confirmation or by the time-out)
